@@ -137,6 +137,11 @@ def run_case(ctx, shape, recursive, linear):
         cot = [1.0, -1.0] + [0.0] * (ncell - 2)        # a cotangent that sums to zero without being zero
         ctx.rng.shuffle(cot)
     methods = ['fixed-point', 'newton'] + (['linear'] if linear else [])
+    if nontriv and getattr(ctx, '_cli_left', None) is None:
+        ctx._cli_left = 10 if ctx.quick else 60
+    if nontriv and ctx._cli_left > 0 and ctx.rng.random() < 0.5:
+        ctx._cli_left -= 1
+        cli_case(ctx, shape, case, model, zval, cot, recursive)
     for name in ('real', 'log'):
         for method in methods:
             subset = ctx.rng.random() < 0.3
@@ -193,6 +198,71 @@ def run_case(ctx, shape, recursive, linear):
                                  dict(case, semiring=name, method=method, entry=[i, j], cotangent=cot), got, float(want),
                                  tags=['gradient', name, method, 'recursive' if recursive else 'nonrecursive'])
     return True
+
+
+def cli_case(ctx, shape, case, model, zval, cot, recursive):
+    """the other observation point the property names: `bin/sum_product.py -G / -g / -e`, with the output cotangent given by
+    `-o <weights>` (any linear functional of the start tensor): printed gradients and expected counts against the model's derivative"""
+    import json, os, subprocess, sys, tempfile
+    from fggs import formats
+    fgg, info = semgen.build(shape, 'real', torch.float64)
+    j = formats.fgg_to_json(fgg)
+    ncell = len(zval)
+    sshape = list(fgg.shape(fgg.start))
+    cot_t = torch.tensor(cot, dtype=torch.float64).reshape(sshape).tolist() if sshape else cot[0]
+    uniform = all(c == 1.0 for c in cot)
+    # -e (expected counts) requires some factor to be given with -w: one factor is taken out of the file and passed on the command line
+    names = [el.name for el in info['TL']]
+    extra = []
+    if names and ctx.rng.random() < 0.7:
+        nm = ctx.rng.choice(names)
+        w = j['interpretation']['factors'].pop(nm)['weights']
+        extra = ['-e', '-w', nm, json.dumps(w)]
+    with tempfile.TemporaryDirectory(prefix='fggs-verif-cli-') as d:
+        f = os.path.join(d, 'g.json')
+        with open(f, 'w') as fh:
+            json.dump(j, fh)
+        repo = os.environ.get('FGGS_REPO', '/repo')
+        cmd = [sys.executable, repo + '/bin/sum_product.py', f, '-d', '-m', 'fixed-point', '-l', '1e-12', '-k', '3000', '-G'] + extra + \
+              ([] if uniform else ['-o', json.dumps(cot_t)])
+        r = subprocess.run(cmd, capture_output=True, text=True, env=dict(os.environ, PYTHONPATH=repo), timeout=600)
+    ctx.evaluations += 1
+    ctx.count('cli.-o' if not uniform else 'cli.default-cotangent')
+    cfg = dict(case, cli=cmd[3:], cotangent=cot)
+    if r.returncode != 0:
+        last = r.stderr.strip().splitlines()[-1][:160] if r.stderr.strip() else ''
+        ctx.fail(f'bin/sum_product.py -G' + (' -e -w ...' if extra else '') + ('' if uniform else ' -o <cotangent>') + f' exited with {r.returncode}: {last}', cfg, r.stderr[-400:], None,
+                 tags=['cli', 'cli-error'] + ([] if uniform else ['-o']))
+        return
+    lines = [l for l in r.stdout.splitlines() if l.strip()]
+    try:
+        grads = {l.split(':', 1)[0][5:-1]: torch.tensor(json.loads(l.split(':', 1)[1]), dtype=torch.float64).reshape(-1).tolist()
+                 for l in lines if l.startswith('grad[')}
+        expects = {l.split(':', 1)[0][3:-1]: torch.tensor(json.loads(l.split(':', 1)[1]), dtype=torch.float64).reshape(-1).tolist()
+                   for l in lines if l.startswith('E[#')}
+    except Exception:  # noqa
+        ctx.fail('bin/sum_product.py printed something unreadable', cfg, r.stdout[-300:], None, tags=['cli', 'cli-output'])
+        return
+    fval = sum(Fraction(cot[a]) * zval[a] for a in range(ncell))
+    tol = 1e-5 if recursive else 1e-9
+    for i, el in enumerate(info['TL']):
+        if el.name not in grads:
+            ctx.fail(f'bin/sum_product.py -G printed no gradient for factor {el.name}', cfg, sorted(grads), el.name, tags=['cli', 'cli-grad-missing'])
+            continue
+        for jx in range(len(shape['weights'][i])):
+            want = float(sum(Fraction(cot[a]) * model[(i, jx)][a] for a in range(ncell)))
+            got = grads[el.name][jx]
+            ctx.evaluations += 1
+            if not abs(got - want) <= tol * max(1.0, abs(want)):
+                ctx.fail(f'bin/sum_product.py -G: grad[{el.name}][{jx}] = {got}, the derivative of the weighted sum-product is {want}', cfg, got, want,
+                         tags=['cli', 'cli-grad'])
+                return
+            if fval != 0 and el.name in expects:
+                wantE = want * shape['weights'][i][jx] / float(fval)
+                gotE = expects[el.name][jx]
+                if not abs(gotE - wantE) <= 10 * tol * max(1.0, abs(wantE)):
+                    ctx.fail(f'bin/sum_product.py -e: E[#{el.name}][{jx}] = {gotE}, expected count is {wantE}', cfg, gotE, wantE, tags=['cli', 'cli-expect'])
+                    return
 
 
 def replay(ctx, rep):
